@@ -29,14 +29,26 @@ def make_judge(kinds=None, extra=None):
     return judge
 
 
+def _judge_one(args):
+    l, o, kinds, extra = args
+    v = refdev.judge_history(l, o, kinds)
+    if v is None and extra:
+        v = extra(l, o, None)
+    return v
+
+
 def oracle_pass(rep, lines, kinds=None, extra=None, known=None, maxrep=3):
-    """always-on run of the independent oracle over the implementation's outputs (not only on disagreements)"""
+    """always-on run of the independent oracle over the implementation's outputs (not only on disagreements);
+    the python-side decoding (pure-python AES / CMAC) is spread over the cores when the oracle functions can be shipped to workers"""
+    import pickle
     io = core.run_lines(core.harness_bin(), lines)
+    try:
+        pickle.dumps(extra)
+        verdicts = core.pmap(_judge_one, [(l, o, kinds, extra) for l, o in zip(lines, io)])
+    except Exception:
+        verdicts = [_judge_one((l, o, kinds, extra)) for l, o in zip(lines, io)]
     n = 0
-    for l, o in zip(lines, io):
-        v = refdev.judge_history(l, o, kinds)
-        if v is None and extra:
-            v = extra(l, o, None)
+    for l, o, v in zip(lines, io, verdicts):
         if v is None:
             continue
         if known and known(l, o, v):
